@@ -3,7 +3,8 @@
     on. *)
 From Coq Require Import ZArith Bool List.
 From AGH Require Import Base.Run.
-From AGH Require Export Model.SvcbParams.
+From AGH Require Export Model.SvcbParams Model.TxtStrings.
+From Coq Require Import NArith.
 Import ListNotations.
 Local Open Scope Z_scope.
 
@@ -15,7 +16,21 @@ Inductive case :=
   (* "port": the text as a decimal integer if it is one, the port returned *)
   | CPort (n : option Z) (obs : option Z)
   (* "alpn": length of the text, whether genAnswerSVCB kept the parameter *)
-  | CAlpn (len : Z) (kept : bool).
+  | CAlpn (len : Z) (kept : bool)
+  (* round 9b, txtStrings: the value's octets, the character strings produced *)
+  | CTxt (v : bytes) (obs : list bytes)
+  (* a value of [n] octets [b]: the lengths of the strings produced *)
+  | CTxtRep (b n : N) (lens : list N)
+  (* ansFromDNSRewriteText for TXT: wire length of the owner name, length of
+     the value, whether an error came back (the record does not fit) *)
+  | CTxtAns (name_wire n : N) (err : bool).
+
+(** MaxMsgSize - txtRespReserve *)
+Definition txt_room : N := 65535 - 512.
+
+(** owner name, type, class, ttl, rdlength; per string one length octet *)
+Definition txt_record_size (name_wire n : N) : N :=
+  name_wire + 10 + n + N.of_nat (length (txt_strings (repeat 0%N (N.to_nat n)))).
 
 Definition obs_hint (o : option (bool * ipclass)) : option hint :=
   match o with
@@ -29,6 +44,10 @@ Definition case_ok (c : case) : bool :=
   | CHint k p obs => eqb_option hint_eqb (hint_handler k p) (obs_hint obs)
   | CPort n obs => eqb_option Z.eqb (port_handler n) obs
   | CAlpn len kept => Bool.eqb (alpn_kept len) kept
+  | CTxt v obs => eqb_list eqb_bytes (txt_strings v) obs
+  | CTxtRep b n lens =>
+      eqb_list N.eqb (map (fun s => N.of_nat (length s)) (txt_strings (repeat b (N.to_nat n)))) lens
+  | CTxtAns nw n err => Bool.eqb (N.ltb txt_room (txt_record_size nw n)) err
   end.
 
 Definition mismatches := Base.Run.mismatches case_ok.
@@ -38,4 +57,7 @@ Definition explain (c : case) : option hint * option Z * bool :=
   | CHint k p _ => (hint_handler k p, None, false)
   | CPort n _ => (None, port_handler n, false)
   | CAlpn len _ => (None, None, alpn_kept len)
+  | CTxt v _ => (None, Some (Z.of_nat (length (txt_strings v))), false)
+  | CTxtRep b n _ => (None, Some (Z.of_nat (length (txt_strings (repeat b (N.to_nat n))))), false)
+  | CTxtAns nw n _ => (None, Some (Z.of_N (txt_record_size nw n)), N.ltb txt_room (txt_record_size nw n))
   end.
